@@ -279,6 +279,7 @@ func genC09(tier string, r *rng) {
 		run(fmt.Sprintf("hup %s %s", cfg, hx(req)))
 	}
 	base := baseHeaders()
+	hdrCfg0 := "hdr:" + hx([]byte("X-Server: t\r\n"))
 	// the plain good request, LF and CRLF, lowercase / uppercase header names
 	for _, eol := range []string{"\r\n", "\n"} {
 		emitUp("-", buildReq("GET", "/ws", "HTTP/1.1", base, eol))
@@ -324,6 +325,28 @@ func genC09(tier string, r *rng) {
 	emitUp("-", append(buildReq("GET", "/", "HTTP/1.1", base[:2], "\r\n")[:40], []byte("NoColonHere\r\n\r\n")...))
 	rev := []hdr{base[4], base[3], base[2], base[1], base[0]}
 	emitUp("-", buildReq("GET", "/chat?x=1", "HTTP/1.1", rev, "\r\n"))
+	// a header line without a colon at every position, CRLF and LF, with and without extra response headers:
+	// the request line has parsed, so an error RESPONSE is due
+	for _, eol := range []string{"\r\n", "\n"} {
+		for pos := 0; pos <= len(base); pos++ {
+			hs := append(append(append([]hdr{}, base[:pos]...), hdr{"", ""}), base[pos:]...)
+			req := bytes.Replace(buildReq("GET", "/ws", "HTTP/1.1", hs, eol), []byte(eol+":"+eol), []byte(eol+"X-Request-Id 8f14e45fceea167a"+eol), 1)
+			emitUp("-", req)
+			emitUp(hdrCfg0, req)
+		}
+	}
+	// bytes that are NOT blanks glued to the edges of mandatory header names and values (only SP and HTAB
+	// may be ignored): vertical tab, form feed, CR, NEL (U+0085), NBSP (U+00A0), NUL
+	for i, nm := range names {
+		for _, junk := range []string{"\v", "\f", "\r", "\u0085", "\u00a0", "\x00"} {
+			good := strings.TrimSpace(base[i].v)
+			for _, v := range []string{" " + good + junk, " " + junk + good, junk + " " + good, " " + good + " " + junk} {
+				emitUp("-", buildReq("GET", "/", "HTTP/1.1", withHeader(base, i, []hdr{{nm, v}}), "\r\n"))
+			}
+			emitUp("-", buildReq("GET", "/", "HTTP/1.1", withHeader(base, i, []hdr{{nm + junk, base[i].v}}), "\r\n"))
+			emitUp("-", buildReq("GET", "/", "HTTP/1.1", withHeader(base, i, []hdr{{junk + nm, base[i].v}}), "\r\n"))
+		}
+	}
 	// subprotocols
 	protoCfgs := []string{"proto:" + hx([]byte("chat")), "proto:" + hx([]byte("b")) + "|" + hx([]byte("c")), "proto:", "-"}
 	protoVals := []string{" chat", " a, b, c", " c,b", " a", "", " a,,b", " a, \"b\"", " b;c", " (x) b", " ,", " b\t,c", " chat, superchat", " ch at"}
